@@ -54,6 +54,7 @@ func (s *Scanner) Scan() bool {
 			err error
 			pos pars.Position
 		}, len(sequenceParsers))
+		start := s.s.Position()
 		for i, p := range sequenceParsers {
 			s.s.Push()
 			s.res, errs[i].err = p.Parse(s.s)
@@ -64,6 +65,15 @@ func (s *Scanner) Scan() bool {
 			}
 			errs[i].pos = s.s.Position()
 			s.s.Pop()
+			if s.s.Position() != start {
+				// The parser let go of input it had accepted (a record that
+				// begins in its format and breaks further down): what is left
+				// is not the stream, so the other formats are not tried on
+				// it - a record of theirs that follows would be returned
+				// and the broken one dropped without an error.
+				s.err = errs[i].err
+				return false
+			}
 		}
 		argmax := 0
 		maxpos := pars.Position{Line: 0, Byte: 0}
